@@ -248,6 +248,8 @@ func c18Getter(c *Ctx, fn *ssa.Function) int {
 		c.Check(okGen, "identity-store-generated", key, p.InstrPos(set), "stores the bytes generated on the miss arm", "the stored value is not the output of a generator that ran on the Get-failed arm: "+RenderN(val, 4))
 		// the value used afterwards is phi(loaded, generated-and-stored) i.e. every non-load origin of the used value is `val`
 		c18UsedValue(c, fn, it, val, key)
+		// a freshly generated identity that could not be stored is not used: the next start would generate another one
+		c18NotUsedUnlessStored(c, fn, set, key)
 	}
 	// ordering between items: an item whose generator consumes another item (cert <- key) must be stored after that item can be: Set(dep) must not be reachable from Set(item)
 	for _, k := range order {
@@ -781,4 +783,77 @@ func c18TokenLeaf(c *Ctx, v ssa.Value, at ssa.Instruction, cl *ssa.Function) {
 		}
 	}
 	c.Check(nonEmpty, "token-nonempty", "WithToken adopts file content", p.InstrPos(at), "file content adopted only when non-empty", "the token read from the file is adopted without checking that it is non-empty: after a kill during the first start the sensor runs with an empty token forever")
+}
+
+// c18NotUsedUnlessStored: when Set fails (disk full, I/O error) the generated identity exists in this process only. A getter
+// that logs the failure and goes on hands out an identity the next start cannot find again – it generates another one and
+// everything pinned to the first (agents, clients that remembered the certificate) no longer matches. Set's error is
+// therefore tested, and every return reachable from its failure edge yields an error (or no identity).
+func c18NotUsedUnlessStored(c *Ctx, fn *ssa.Function, set *ssa.Call, key string) {
+	p := c.P
+	const rule = "identity-not-used-unless-stored"
+	var failEdge *ssa.BasicBlock
+	for _, b := range fn.Blocks {
+		if len(b.Instrs) == 0 {
+			continue
+		}
+		iff, ok := b.Instrs[len(b.Instrs)-1].(*ssa.If)
+		if !ok {
+			continue
+		}
+		bo, ok := iff.Cond.(*ssa.BinOp)
+		if !ok || !IsNilConst(bo.Y) {
+			continue
+		}
+		isSetErr := false
+		for _, lf := range leaves(bo.X) {
+			if lf == ssa.Value(set) {
+				isSetErr = true
+			}
+		}
+		if !isSetErr {
+			continue
+		}
+		switch bo.Op {
+		case token.NEQ:
+			failEdge = b.Succs[0]
+		case token.EQL:
+			failEdge = b.Succs[1]
+		}
+	}
+	if failEdge == nil {
+		c.Violate(rule, key, p.InstrPos(set), "the result of Set is not tested: an identity that could not be stored is used for this run and replaced by another one at the next start")
+		return
+	}
+	reach := ReachBlocks([]*ssa.BasicBlock{failEdge}, nil, nil)
+	reach[failEdge] = true
+	bad := ""
+	for _, r := range Returns(fn) {
+		if !reach[r.Block()] {
+			continue
+		}
+		rv := RetVals(r)
+		okRet := false
+		for i, v := range rv {
+			if IsErrorType(v.Type()) && !IsNilConst(v) {
+				// an error result that is not the constant nil (phis that may be nil are not accepted)
+				allNonNil := true
+				for _, lf := range leaves(v) {
+					if IsNilConst(lf) {
+						allNonNil = false
+					}
+				}
+				if allNonNil {
+					okRet = true
+				}
+			}
+			if i == 0 && IsNilConst(v) {
+				okRet = true // no identity handed out
+			}
+		}
+		if !okRet {
+			bad = p.InstrPos(r)
+		}
+	}
+	c.Check(bad == "", rule, key, p.InstrPos(set), "after a failed Set the getter returns an error (or no identity)", "after Set has failed the getter can still return the freshly generated identity ("+bad+"): it is used for this run although nothing was stored, the next start generates a different one, and whatever was pinned to the first – an agent's server key, a client's remembered certificate – no longer matches")
 }
